@@ -323,6 +323,13 @@ func c20Model(c c20Case) []c20Entry {
 	return m
 }
 
+func c20FuncOrOther(kind string) string {
+	if kind == "func" || kind == "method" {
+		return "func"
+	}
+	return "nonfunc-decl"
+}
+
 func c20Depth(p string) int {
 	if p == "" {
 		return 0
@@ -340,11 +347,20 @@ func c20Classify(c c20Case) (nontrivial bool, labels []string) {
 	twoInFile := false
 	syms := map[string]int{}
 	funcDirs := map[string]map[string]bool{}
-	look := func(place string, lines []c20Line) {
+	// look-alike labels: la:<shape>, la@<place>, la-in-<file kind>
+	look := func(place, fileKind string, lines []c20Line) {
 		for _, l := range lines {
-			if l.lookalike() {
-				lookalikes++
-				add("la:" + l.K + "@" + place)
+			if !l.lookalike() {
+				continue
+			}
+			lookalikes++
+			add("la:" + l.K)
+			add("la@" + place)
+			if fileKind != "go" {
+				add("la-in-" + fileKind + "-file")
+				if l.K == "redirect" && place == "doc-of-func" {
+					add("exact-annotation-on-func-in-" + fileKind + "-file")
+				}
 			}
 		}
 	}
@@ -360,41 +376,38 @@ func c20Classify(c c20Case) (nontrivial bool, labels []string) {
 		}
 		for _, f := range d.Files {
 			files++
-			sfx := ""
-			switch f.Kind {
-			case "test":
-				sfx = "/testfile"
-			case "other":
-				sfx = "/otherfile"
-				if f.Junk {
-					add("junk-file")
-				}
-			default:
-				if strings.Contains(f.Name, "test") {
-					add("go-file-name-contains-test")
-				}
+			switch {
+			case f.Junk:
+				add("junk-file")
+			case f.Kind == "go" && strings.Contains(f.Name, "_test"):
+				add("go-file-name-contains-_test")
 			}
 			if f.NoNL {
 				add("no-final-newline")
 			}
-			look("header"+sfx, f.Header)
+			look("file-header", f.Kind, f.Header)
 			annotatedFuncs := 0
 			for i, it := range f.Items {
-				place := it.Kind + sfx
-				look("detached-above-"+place, it.Detached)
-				look("inside-"+place, it.Inner)
+				inner, trailing := "inside-func-body", "trailing-func"
+				if it.Kind != "func" && it.Kind != "method" {
+					inner, trailing = "inside-nonfunc-decl", "trailing-nonfunc-decl"
+				}
+				look("detached-group-above-decl", f.Kind, it.Detached)
+				look(inner, f.Kind, it.Inner)
+				if it.Lit && len(it.Inner) > 0 {
+					look("above-func-literal", f.Kind, it.Inner[len(it.Inner)-1:])
+				}
 				if it.Trail != nil {
-					look("trailing-"+place, []c20Line{*it.Trail})
+					look(trailing, f.Kind, []c20Line{*it.Trail})
 				}
 				if it.Kind != "func" || f.Kind != "go" {
-					if it.Kind == "comment" {
-						if it.Tight && i > 0 {
-							look("directly-after-"+f.Items[i-1].Kind+sfx, it.Doc)
-						} else {
-							look("free-comment"+sfx, it.Doc)
-						}
-					} else {
-						look("doc-of-"+place, it.Doc)
+					switch {
+					case it.Kind == "comment" && it.Tight && i > 0 && f.Items[i-1].Kind != "comment":
+						look("directly-below-"+c20FuncOrOther(f.Items[i-1].Kind), f.Kind, it.Doc)
+					case it.Kind == "comment":
+						look("free-comment", f.Kind, it.Doc)
+					default:
+						look("doc-of-"+it.Kind, f.Kind, it.Doc)
 					}
 					continue
 				}
@@ -402,10 +415,7 @@ func c20Classify(c c20Case) (nontrivial bool, labels []string) {
 				n := 0
 				for li, l := range it.Doc {
 					if l.K != "redirect" {
-						if l.lookalike() {
-							lookalikes++
-							add("la:" + l.K + "@func-doc")
-						}
+						look("doc-of-annotatable-func", "go", []c20Line{l})
 						if l.K == "directive" && n > 0 {
 							add("annotation-before-other-directive")
 						}
@@ -414,15 +424,8 @@ func c20Classify(c c20Case) (nontrivial bool, labels []string) {
 					n++
 					entries++
 					syms[l.Sym]++
-					switch {
-					case li == 0 && len(it.Doc) > 1:
-						add("annotation-first-of-doc")
-					case li == len(it.Doc)-1 && len(it.Doc) > 1:
-						add("annotation-last-of-doc")
-					case len(it.Doc) > 1:
-						add("annotation-mid-doc")
-					default:
-						add("annotation-alone")
+					if li > 0 && li < len(it.Doc)-1 {
+						add("annotation-between-other-doc-lines")
 					}
 					if l.WS != " " {
 						add("annotation-extra-blanks")
@@ -441,14 +444,11 @@ func c20Classify(c c20Case) (nontrivial bool, labels []string) {
 				if n >= 2 {
 					add("func-with-2+-annotations")
 				}
-				if n >= 3 {
-					add("func-with-3+-annotations")
-				}
 				if it.Body == "none" {
 					add("annotated-func-without-body")
 				}
 				if it.Tight && i > 0 && f.Items[i-1].Kind != "comment" && len(it.Detached) == 0 {
-					add("annotated-doc-tight-after-" + f.Items[i-1].Kind)
+					add("annotated-doc-tight-after-" + c20FuncOrOther(f.Items[i-1].Kind))
 				}
 				if it.Tight && i == 0 && len(it.Detached) == 0 {
 					add("annotated-doc-tight-after-package-clause")
